@@ -43,6 +43,9 @@ type E7Spec struct {
 	DecodeGlobal  []FuncRuleSpec     `json:"decode_into_global"`
 	ReturnGlobal  []FuncRuleSpec     `json:"return_global_address"`
 	EveryElement  []FuncRuleSpec     `json:"every_element"`
+	BulkOverwrite []FuncRuleSpec     `json:"bulk_overwrite"`
+	SharedBacking []FuncRuleSpec     `json:"shared_backing"`
+	LossyIdent    []LossyIdentSpec   `json:"lossy_identifier"`
 }
 
 type FuncRuleSpec struct {
@@ -162,6 +165,15 @@ func runE7(p *Program, sp *Spec, c *Collector) {
 	}
 	for _, ee := range t.EveryElement {
 		runEveryElement(p, c, ee)
+	}
+	for _, bo := range t.BulkOverwrite {
+		runBulkOverwrite(p, c, bo)
+	}
+	for _, sb := range t.SharedBacking {
+		runSharedBacking(p, c, sb)
+	}
+	for _, li := range t.LossyIdent {
+		runLossyIdent(p, c, li)
 	}
 	for _, n := range t.NoExit {
 		runNoExit(p, sp, c, n)
@@ -1610,6 +1622,8 @@ func valueFromParam(v ssa.Value, prm *ssa.Parameter, seen map[ssa.Value]bool) bo
 		return valueFromParam(x.X, prm, seen)
 	case *ssa.Index:
 		return valueFromParam(x.X, prm, seen)
+	case *ssa.Lookup:
+		return valueFromParam(x.X, prm, seen)
 	case *ssa.Extract:
 		return valueFromParam(x.Tuple, prm, seen)
 	case *ssa.Next:
@@ -1680,12 +1694,16 @@ func runImmutable(p *Program, c *Collector, im ImmutableSpec) {
 		}
 		for _, b := range f.Blocks {
 			for _, in := range b.Instrs {
+				if mu, ok := in.(*ssa.MapUpdate); ok && valueFromParam(mu.Map, fn.Params[im.Param], map[ssa.Value]bool{}) {
+					c.Ob(im.Props, "E7.input-immutability", key, Violated, im.What+": the function adds to or replaces entries of its input map ("+fn.Params[im.Param].Name()+"), so whoever reads the same map afterwards sees modified data", p.InstrPos(in), false)
+					return
+				}
 				st, ok := in.(*ssa.Store)
 				if !ok {
 					continue
 				}
 				if sharedLocation(st.Addr, fn.Params[im.Param]) {
-					c.Ob(im.Props, "E7.input-immutability", key, Violated, im.What+": the function writes into the elements of its input ("+fn.Params[im.Param].Name()+"), so a second summary computed from the same commit list sees modified data", p.InstrPos(in), false)
+					c.Ob(im.Props, "E7.input-immutability", key, Violated, im.What+": the function writes into the elements of its input ("+fn.Params[im.Param].Name()+"), so a second computation from the same input sees modified data", p.InstrPos(in), false)
 					return
 				}
 			}
@@ -2520,7 +2538,6 @@ func runReturnGlobal(p *Program, c *Collector, a FuncRuleSpec) {
 	}
 }
 
-
 // ---------------------------------------------------------------------------------------------
 // every element counts: a function that turns a list (the arguments of a statement) into records must not keep "the value of
 // the last iteration" of a loop — a variable overwritten on each iteration and used after the loop. In the symbolic
@@ -2552,5 +2569,302 @@ func runEveryElement(p *Program, c *Collector, a FuncRuleSpec) {
 		} else {
 			c.Ob(a.Props, "E7.every-element", key, Discharged, "no result depends on the last iteration of a loop only", p.FuncPos(fn), true)
 		}
+	}
+}
+
+// ---------------------------------------------------------------------------------------------
+// bulk overwrite: records are accumulated one per declaration in a package-level list; a loop over that list that assigns
+// the same, loop-invariant, non-constant value (the state as it is *now*) to a field of every accumulated record replaces
+// what was true when each record was made by what is true at the end.
+func runBulkOverwrite(p *Program, c *Collector, a FuncRuleSpec) {
+	for _, fn := range expandFuncs(p, c, a.Funcs, a.Props...) {
+		if fn.Blocks == nil {
+			continue
+		}
+		key := "bulkoverwrite:" + p.FuncKey(fn)
+		var bad ssa.Instruction
+		var what string
+		for _, h := range loopHeaders(fn) {
+			region := naturalLoopOf(fn, h)
+			for b := range region {
+				for _, in := range b.Instrs {
+					st, ok := in.(*ssa.Store)
+					if !ok || bad != nil {
+						continue
+					}
+					fa, ok := st.Addr.(*ssa.FieldAddr)
+					if !ok {
+						continue
+					}
+					ia, ok := fa.X.(*ssa.IndexAddr)
+					if !ok {
+						continue
+					}
+					g := loadedGlobal(ia.X)
+					if g == nil || !p.Own[g.Pkg.Pkg] {
+						continue
+					}
+					if _, isConst := ia.Index.(*ssa.Const); isConst {
+						continue
+					}
+					// the index varies with the loop, the value does not
+					if !definedIn(ia.Index, region) || definedInDeep(st.Val, region, map[ssa.Value]bool{}) {
+						continue
+					}
+					if _, isConst := st.Val.(*ssa.Const); isConst {
+						continue
+					}
+					n, _ := fieldOf(fa.X.Type(), fa.Field)
+					bad, what = in, n+" of every element of "+g.Name()
+				}
+			}
+		}
+		if bad != nil {
+			c.Ob(a.Props, "E7.bulk-overwrite", key, Violated, a.What+": "+what+" is overwritten, after the fact, with one value that does not depend on the element: each record loses what was recorded when it was made (two classes of one file end up with the same attribution)", p.InstrPos(bad), false)
+		} else {
+			c.Ob(a.Props, "E7.bulk-overwrite", key, Discharged, "no loop re-attributes the accumulated records with a single value", p.FuncPos(fn), true)
+		}
+	}
+}
+
+func loopHeaders(fn *ssa.Function) []*ssa.BasicBlock {
+	var out []*ssa.BasicBlock
+	for _, b := range fn.Blocks {
+		for _, pr := range b.Preds {
+			if b.Dominates(pr) {
+				out = append(out, b)
+				break
+			}
+		}
+	}
+	return out
+}
+
+func definedIn(v ssa.Value, region map[*ssa.BasicBlock]bool) bool {
+	in, ok := v.(ssa.Instruction)
+	return ok && in.Block() != nil && region[in.Block()]
+}
+
+// definedInDeep: does v depend on something that varies inside the region (a phi or a range/next of the region, or a load of
+// something indexed by such)? Loads of package variables are invariant unless the variable is stored to inside the region.
+func definedInDeep(v ssa.Value, region map[*ssa.BasicBlock]bool, seen map[ssa.Value]bool) bool {
+	if v == nil || seen[v] {
+		return false
+	}
+	seen[v] = true
+	in, ok := v.(ssa.Instruction)
+	if !ok || in.Block() == nil || !region[in.Block()] {
+		return false
+	}
+	switch x := v.(type) {
+	case *ssa.Phi, *ssa.Next, *ssa.Range:
+		return true
+	case *ssa.UnOp:
+		if x.Op == token.MUL {
+			if g, ok := x.X.(*ssa.Global); ok {
+				for b := range region {
+					for _, i2 := range b.Instrs {
+						if st, ok := i2.(*ssa.Store); ok && st.Addr == ssa.Value(g) {
+							return true
+						}
+					}
+				}
+				return false
+			}
+		}
+	case *ssa.Call:
+		return true // a call inside the loop may return something different each time
+	}
+	var ops []*ssa.Value
+	for _, o := range in.Operands(ops) {
+		if o != nil && definedInDeep(*o, region, seen) {
+			return true
+		}
+	}
+	return false
+}
+
+// ---------------------------------------------------------------------------------------------
+// shared backing array: a package-level slice made with spare capacity (make(T, l, c), c > l) and handed out as the initial
+// value of a record field that is later grown with append: the first append through any record writes into the spare
+// capacity shared by all of them, so records overwrite each other's elements.
+func runSharedBacking(p *Program, c *Collector, a FuncRuleSpec) {
+	pkgs := map[*ssa.Package]bool{}
+	for _, fn := range expandFuncs(p, c, a.Funcs, a.Props...) {
+		q := fn
+		for q.Parent() != nil {
+			q = q.Parent()
+		}
+		if q.Pkg != nil {
+			pkgs[q.Pkg] = true
+		}
+	}
+	// fields grown by append anywhere in the module
+	grown := map[string]bool{}
+	for _, fn := range p.OwnFuncs {
+		for _, b := range fn.Blocks {
+			for _, in := range b.Instrs {
+				call, ok := in.(*ssa.Call)
+				if !ok {
+					continue
+				}
+				if bi, ok := call.Call.Value.(*ssa.Builtin); !ok || bi.Name() != "append" || len(call.Call.Args) == 0 {
+					continue
+				}
+				if f := loadedField(call.Call.Args[0]); f != "" {
+					grown[f] = true
+				}
+			}
+		}
+	}
+	var pl []*ssa.Package
+	for pk := range pkgs {
+		pl = append(pl, pk)
+	}
+	sort.Slice(pl, func(i, j int) bool { return pl[i].Pkg.Path() < pl[j].Pkg.Path() })
+	for _, pk := range pl {
+		initFn := pk.Func("init")
+		n := 0
+		if initFn != nil {
+			for _, b := range initFn.Blocks {
+				for _, in := range b.Instrs {
+					st, ok := in.(*ssa.Store)
+					if !ok {
+						continue
+					}
+					g, ok := st.Addr.(*ssa.Global)
+					if !ok {
+						continue
+					}
+					switch ms := st.Val.(type) {
+					case *ssa.MakeSlice:
+						l, lok := constInt(ms.Len)
+						cp, cok := constInt(ms.Cap)
+						if lok && cok && cp <= l {
+							continue
+						}
+					case *ssa.Slice:
+						// make with constant sizes is compiled to new([cap]T)[:len]
+						al, isAlloc := ms.X.(*ssa.Alloc)
+						if !isAlloc || ms.Max != nil {
+							continue
+						}
+						arr, isArr := al.Type().Underlying().(*types.Pointer).Elem().Underlying().(*types.Array)
+						if !isArr {
+							continue
+						}
+						if ms.High == nil {
+							continue
+						}
+						if l, lok := constInt(ms.High); lok && l >= arr.Len() {
+							continue
+						}
+					default:
+						continue
+					}
+					n++
+					key := "sharedbacking:" + p.GlobalKey(g)
+					var hit ssa.Instruction
+					var field string
+					for _, fn := range p.OwnFuncs {
+						for _, b2 := range fn.Blocks {
+							for _, i2 := range b2.Instrs {
+								s2, ok := i2.(*ssa.Store)
+								if !ok || hit != nil {
+									continue
+								}
+								if loadedGlobal(s2.Val) != g {
+									continue
+								}
+								if fa, ok := s2.Addr.(*ssa.FieldAddr); ok {
+									f := fieldFullName(fa.X.Type(), fa.Field)
+									if grown[f] {
+										hit, field = i2, f
+									}
+								}
+							}
+						}
+					}
+					if hit != nil {
+						c.Ob(a.Props, "E7.shared-backing", key, Violated, a.What+": the package-level slice "+g.Name()+" has spare capacity and becomes the initial value of "+field+", which is grown with append: every record appends into the same backing array, so the elements of one record are overwritten by the next", p.InstrPos(hit), false)
+					} else {
+						c.Ob(a.Props, "E7.shared-backing", key, Discharged, "the package-level slice "+g.Name()+" is not handed out as the start of an appended-to field", p.InstrPos(in), true)
+					}
+				}
+			}
+		}
+		if n == 0 {
+			c.Ob(a.Props, "E7.shared-backing", "sharedbacking:pkg "+rel(pk.Pkg.Path()), Discharged, "no package-level slice with spare capacity", "", true)
+		}
+	}
+}
+
+// ---------------------------------------------------------------------------------------------
+// lossy identifier: the name under which a thing is registered in a name-keyed container (a DOT subgraph or node of gographviz:
+// a second registration under the same name replaces or merges with the first) must be an injective function of the thing.
+// A running counter is; a name computed through a string transformation that maps different inputs to one output
+// (ReplaceAll, ToLower, Trim…, Title, Fields) is not.
+type LossyIdentSpec struct {
+	Props   []string       `json:"props"`
+	Funcs   []string       `json:"funcs"`
+	Callees map[string]int `json:"callees"` // registering function -> index of the name argument (receiver not counted)
+	Min     int            `json:"min"`     // sites confirmed by hand
+	What    string         `json:"what"`
+}
+
+func runLossyIdent(p *Program, c *Collector, li LossyIdentSpec) {
+	lossy := []string{"Replace", "replace", "ToLower", "ToUpper", "lower", "upper", "Trim", "trim", "Title", "Fields", "strings.Map"}
+	sites := 0
+	for _, fn := range expandFuncs(p, c, li.Funcs, li.Props...) {
+		var sf *symFn
+		n := 0
+		for _, b := range fn.Blocks {
+			for _, in := range b.Instrs {
+				call, ok := in.(ssa.CallInstruction)
+				if !ok {
+					continue
+				}
+				callee := call.Common().StaticCallee()
+				if callee == nil {
+					continue
+				}
+				idx, ok := li.Callees[fullFuncName(callee)]
+				if !ok {
+					continue
+				}
+				if callee.Signature.Recv() != nil {
+					idx++
+				}
+				if idx >= len(call.Common().Args) {
+					continue
+				}
+				if sf == nil {
+					sf = newSymFn(p, fn, 0)
+				}
+				n++
+				sites++
+				key := fmt.Sprintf("lossyident:%s %s#%d", p.FuncKey(fn), callee.Name(), n)
+				term := sf.val(call.Common().Args[idx])
+				bad := ""
+				term.walk(func(x *Sym) {
+					if bad != "" || (x.Op != "call" && x.Op != "pred") {
+						return
+					}
+					for _, l := range lossy {
+						if strings.Contains(x.Name, l) {
+							bad = x.Name
+						}
+					}
+				})
+				if bad != "" {
+					c.Ob(li.Props, "E7.lossy-identifier", key, Violated, li.What+": the name "+clip(term.String(), 160)+" is computed through "+bad+", which maps different inputs to the same name: two different things registered under one name are merged", p.InstrPos(in), false)
+				} else {
+					c.Ob(li.Props, "E7.lossy-identifier", key, Discharged, "the registered name "+clip(term.String(), 100)+" involves no many-to-one string transformation", p.InstrPos(in), true)
+				}
+			}
+		}
+	}
+	if sites < li.Min {
+		c.Anchor(li.Props, "E7: lossy identifier: %d registration sites found, %d confirmed by hand", sites, li.Min)
 	}
 }
